@@ -1,6 +1,6 @@
 (* X86Walk.v - x86_64, unwind_frame level: progress (C10), truncation (C11), fallback decisions (C04). *)
-From FH Require Import Consts Word X86 DwarfRow DwarfSpec Cfi Unwinder X86Dwarf DwarfCb X86Unw
-  WordFacts X86Exec HistFacts StaticFacts CfiFacts.
+From FH Require Import Consts Word X86 DwarfRow DwarfSpec Cfi Unwinder X86Dwarf DwarfCb Pe X86Unw
+  WordFacts X86Exec HistFacts StaticFacts CfiFacts ModFacts.
 From Coq Require Import Lia ZifyBool ZifyN.
 Open Scope N_scope.
 Arguments N.add : simpl never.
@@ -30,7 +30,12 @@ Proof.
   rewrite ip_generic, sp_generic. split; [reflexivity|]. split; [lia|]. intros ->. cbn [negb andb] in Eb. lia.
 Qed.
 
+(* no PE module: the PE generic path (frame-register restores, machine frames, ip never updated)
+   is outside the progress theorems - known finding S9b *)
+Definition no_pe (l : list xmodule) : Prop := forall md, In md l -> forall pe, mdat md <> MPe pe.
+
 Lemma cb_x86_shape md first rel rg m :
+  (forall pe, mdat md <> MPe pe) ->
   match fst (cb_x86 md first rel rg m) with
   | CbUncacheable ra rg' =>
       ip rg' = ra /\ ~ (sp rg' = sp rg /\ ra = ip rg) /\ (first = false -> sp rg < sp rg')
@@ -40,7 +45,7 @@ Lemma cb_x86_shape md first rel rg m :
   | CbHang => False
   end.
 Proof.
-  unfold cb_x86. destruct (mdat md); [reflexivity|]. unfold cb_dwarf.
+  intros Hnope. unfold cb_x86. destruct (mdat md) as [|p sec|pe]; [reflexivity| |exfalso; eapply Hnope; reflexivity]. unfold cb_dwarf.
   assert (W : forall f svma,
     match with_fde rule regs row_step_x86 uncovered_rule_x86 f svma first rg m with
     | CbUncacheable ra rg' =>
@@ -66,11 +71,13 @@ Qed.
 
 (* ---------- C10: every successful caller-frame step ---------- *)
 Theorem caller_step_progress_x86 u c x rg m ra :
+  no_pe (mods _ u) ->
   o_res _ _ (unwind_frame_x u c (RA x) rg m) = Ok (Some ra) ->
   let rg' := o_regs _ _ (unwind_frame_x u c (RA x) rg m) in
   ra <> 0 /\ ip rg' = ra /\
   (sp rg < sp rg' \/ (sp rg' = sp rg /\ 8 <= sp rg' /\ m (sp rg' - 8) = Some ra /\ ra <> ip rg)).
 Proof.
+  intros Hnp.
   assert (EX : forall r rgi res rgo, exec ra_addr_checked r false rgi m = (res, rgo) -> res = Ok (Some ra) ->
                ra <> 0 /\ ip rgo = ra /\
                (sp rgi < sp rgo \/ (sp rgo = sp rgi /\ 8 <= sp rgo /\ m (sp rgo - 8) = Some ra /\ ra <> ip rgi))).
@@ -83,8 +90,8 @@ Proof.
   destruct (lookup_address (RA x)) as [a| | |]; cbn; try discriminate.
   destruct (cache_lookup rule c a (gen _ u)) as [[r|slot] c1].
   - destruct (exec ra_addr_checked r false rg m) as [res rgo] eqn:E. cbn. intros H. eapply EX; eassumption.
-  - destruct (find_module mdata (mods _ u) a) as [[[md rel]|]|e|s|]; cbn; try discriminate.
-    + pose proof (cb_x86_shape md false rel rg m) as Hcb.
+  - destruct (find_module mdata (mods _ u) a) as [[[md rel]|]|e|s|] eqn:Efm; cbn; try discriminate.
+    + pose proof (cb_x86_shape md false rel rg m (Hnp md (find_module_in _ _ _ _ _ Efm))) as Hcb.
       destruct (cb_x86 md false rel rg m) as [cr ef]. cbn [fst] in Hcb.
       destruct cr; cbn; try discriminate.
       * destruct (exec ra_addr_checked r false rg m) as [res rgo] eqn:E. cbn. intros H. eapply EX; eassumption.
@@ -97,6 +104,7 @@ Qed.
 
 (* two consecutive successful caller steps cannot both leave the stack pointer unchanged *)
 Theorem two_caller_steps_advance_x86 u c1 c2 x rg m ra1 ra2 :
+  no_pe (mods _ u) ->
   ip rg = x ->
   o_res _ _ (unwind_frame_x u c1 (RA x) rg m) = Ok (Some ra1) ->
   let rg1 := o_regs _ _ (unwind_frame_x u c1 (RA x) rg m) in
@@ -104,9 +112,9 @@ Theorem two_caller_steps_advance_x86 u c1 c2 x rg m ra1 ra2 :
   let rg2 := o_regs _ _ (unwind_frame_x u c2 (RA ra1) rg1 m) in
   sp rg < sp rg2.
 Proof.
-  intros Hip H1 rg1 H2 rg2.
-  pose proof (caller_step_progress_x86 u c1 x rg m ra1 H1) as HH1. cbv zeta in HH1. destruct HH1 as (N1 & I1 & P1).
-  pose proof (caller_step_progress_x86 u c2 ra1 rg1 m ra2 H2) as HH2. cbv zeta in HH2. destruct HH2 as (N2 & I2 & P2).
+  intros Hnp Hip H1 rg1 H2 rg2.
+  pose proof (caller_step_progress_x86 u c1 x rg m ra1 Hnp H1) as HH1. cbv zeta in HH1. destruct HH1 as (N1 & I1 & P1).
+  pose proof (caller_step_progress_x86 u c2 ra1 rg1 m ra2 Hnp H2) as HH2. cbv zeta in HH2. destruct HH2 as (N2 & I2 & P2).
   fold rg1 in I1, P1. fold rg2 in I2, P2.
   destruct P1 as [P1|(E1 & L1 & M1 & D1)]; destruct P2 as [P2|(E2 & L2 & M2 & D2)]; try lia.
   exfalso. rewrite E2 in M2. rewrite M1 in M2. inversion M2 as [Heq]. apply D2. rewrite <- Heq. symmetry. exact I1.
@@ -114,13 +122,14 @@ Qed.
 
 (* a single successful caller step never reproduces its own state *)
 Theorem caller_step_no_self_loop_x86 u c x rg m ra :
+  no_pe (mods _ u) ->
   ip rg = x ->
   o_res _ _ (unwind_frame_x u c (RA x) rg m) = Ok (Some ra) ->
   let rg' := o_regs _ _ (unwind_frame_x u c (RA x) rg m) in
   ~ (ra = x /\ sp rg' = sp rg).
 Proof.
-  intros Hip H rg' [Hra Hsp].
-  pose proof (caller_step_progress_x86 u c x rg m ra H) as HH1. cbv zeta in HH1. destruct HH1 as (N1 & I1 & P1). fold rg' in I1, P1.
+  intros Hnp Hip H rg' [Hra Hsp].
+  pose proof (caller_step_progress_x86 u c x rg m ra Hnp H) as HH1. cbv zeta in HH1. destruct HH1 as (N1 & I1 & P1). fold rg' in I1, P1.
   destruct P1 as [P1|(E1 & L1 & M1 & D1)]; [lia|]. apply D1. congruence.
 Qed.
 
